@@ -130,12 +130,12 @@ def ir_cases(rng, tier, only_wf=True):
                     if ret == 2 and (recv == 2 or args):
                         continue
                     cases.append("1 1 | %s" % " ".join(map(str, method_row(recv, flags, ret, 2, args))))
-    # a provided method bounded by `where Self: Sized` (intmode +16 with +4) keeps its slot, alone and between other methods
-    for flags in (20, 28):
+    # a provided method bounded by `where Self: Sized` (receiver field +16, with a default body: intmode +4) keeps its slot, alone and between other methods
+    for flags in (4, 12):
         for recv in (0, 1):
             for ret in (0, 1, 6):
-                cases.append("1 1 | %s" % " ".join(map(str, method_row(recv, flags, ret, 2, [(0, 2)]))))
-                rows = [method_row(0, 0, 1, 2, [(0, 2)]), method_row(recv, flags, ret, 2, []), method_row(1, 0, 0, 0, [(1, 0)])]
+                cases.append("1 1 | %s" % " ".join(map(str, method_row(recv + 16, flags, ret, 2, [(0, 2)]))))
+                rows = [method_row(0, 0, 1, 2, [(0, 2)]), method_row(recv + 16, flags, ret, 2, []), method_row(1, 0, 0, 0, [(1, 0)])]
                 cases.append("1 0 | %s" % " ; ".join(" ".join(map(str, r)) for r in rows))
     # a doc comment and an unrelated attribute beside the method's own attributes (receiver field +8) change nothing: in particular
     # #[no_int_result] / #[int_result] keep their meaning
@@ -809,22 +809,25 @@ def layout_cases(rng, tier):
     # canonical single edits whose verdict the property statement fixes by itself (third header field = expected verdict, ignored by the model)
     def xline(t1, r1, t2, r2, exp):
         return "20 %d %d %d | %s ; -1 ; %s" % (t1, t2, exp, " ; ".join(" ".join(map(str, r)) for r in r1), " ; ".join(" ".join(map(str, r)) for r in r2))
-    b0 = [method_row(0, 16 * 1, 1, 2, [(0, 2), (0, 3)]), method_row(1, 16 * 2, 6, 2, [(0, 2)])]     # n1(&self, u32, u64) -> u32 ; n2(&mut self, u32) -> Result<u32, ()>
-    def ed(f):
-        r = copy.deepcopy(b0); f(r); return r
-    cases.append(xline(0, b0, 0, b0, 0))
-    cases.append(xline(1, b0, 1, b0, 0))
-    cases.append(xline(0, b0, 0, ed(lambda r: r[0].__setitem__(6, 3)), 1))            # argument u32 -> u64
-    cases.append(xline(0, b0, 0, ed(lambda r: r[0].__setitem__(8, 2)), 1))            # argument u64 -> u32
-    cases.append(xline(0, b0, 0, ed(lambda r: r[0].__setitem__(3, 3)), 1))            # return u32 -> u64
-    cases.append(xline(0, b0, 0, ed(lambda r: r[0].__setitem__(0, 1)), 1))            # receiver &self -> &mut self
-    cases.append(xline(0, b0, 0, ed(lambda r: r[1].__setitem__(0, 0)), 1))            # receiver &mut self -> &self
-    cases.append(xline(0, b0, 1, b0, 1))                                              # trait-level int_result toggled (Result return)
-    cases.append(xline(0, b0, 0, ed(lambda r: r[1].__setitem__(1, 16 * 2 + 1)), 1))   # method-level int_result
-    cases.append(xline(0, b0, 0, ed(lambda r: r.reverse()), 1))                       # reordered
-    cases.append(xline(0, b0, 0, ed(lambda r: r[0].__setitem__(1, 16 * 3)), 1))       # renamed
-    cases.append(xline(0, b0, 0, ed(lambda r: r.append(method_row(0, 16 * 4, 0, 0, []))), 1))   # added
-    cases.append(xline(0, b0, 0, ed(lambda r: r.pop()), 1))                           # removed
+    # base A: n1(&self, u32, u64) -> u32 ; n2(&mut self, u32) -> Result<u32, ()>;  base B: the same methods with explicit lifetime generics <'a> (their
+    # vtable entries are `for<'a>` function pointers, described to the layout checker through another path)
+    for lt in (0, 8):
+        b0 = [method_row(0, 16 * 1 + lt, 1, 2, [(0, 2), (0, 3)]), method_row(1, 16 * 2 + lt, 6, 2, [(0, 2)])]
+        def ed(f, b0=b0):
+            r = copy.deepcopy(b0); f(r); return r
+        cases.append(xline(0, b0, 0, b0, 0))
+        cases.append(xline(1, b0, 1, b0, 0))
+        cases.append(xline(0, b0, 0, ed(lambda r: r[0].__setitem__(6, 3)), 1))            # argument u32 -> u64
+        cases.append(xline(0, b0, 0, ed(lambda r: r[0].__setitem__(8, 2)), 1))            # argument u64 -> u32
+        cases.append(xline(0, b0, 0, ed(lambda r: r[0].__setitem__(3, 3)), 1))            # return u32 -> u64
+        cases.append(xline(0, b0, 0, ed(lambda r: r[0].__setitem__(0, 1)), 1))            # receiver &self -> &mut self
+        cases.append(xline(0, b0, 0, ed(lambda r: r[1].__setitem__(0, 0)), 1))            # receiver &mut self -> &self
+        cases.append(xline(0, b0, 1, b0, 1))                                              # trait-level int_result toggled (Result return)
+        cases.append(xline(0, b0, 0, ed(lambda r: r[1].__setitem__(1, 16 * 2 + lt + 1)), 1))   # method-level int_result
+        cases.append(xline(0, b0, 0, ed(lambda r: r.reverse()), 1))                       # reordered
+        cases.append(xline(0, b0, 0, ed(lambda r: r[0].__setitem__(1, 16 * 3 + lt)), 1))  # renamed
+        cases.append(xline(0, b0, 0, ed(lambda r: r.append(method_row(0, 16 * 4, 0, 0, []))), 1))   # added
+        cases.append(xline(0, b0, 0, ed(lambda r: r.pop()), 1))                           # removed
     # the same canonical edits inside a trait that is a MANDATORY (role 0) / OPTIONAL (role 1) member of a group: the group's verdict must follow
     for c in [x for x in cases if x.startswith("20 ") and len(x.split("|")[0].split()) == 4]:
         h, body = c.split("|", 1)
